@@ -502,6 +502,38 @@ def run_kde_los_witness(rec):
         rec.violation("C02:raises:DdtDdKDE_los_draw", "DdtDdKDE lens with a line-of-sight distribution: likelihood raises inside the box", inp, repr(e)[:200], "a real number or -inf")
 
 
+def run_nolens(rec, seed):
+    """oLCDM sampled with NO strong lens (the data are a supernova sample): the per-lens E(z)^2 loop has nothing to look at, the
+    dark-energy condition must still reject - and before the supernova likelihood is evaluated."""
+    from hierarc.Likelihood.cosmo_likelihood import CosmoLikelihood
+    from astropy.cosmology import LambdaCDM
+    rng = rng_of(seed, 17)
+    zcmb = np.sort(rng.uniform(0.02, 1.2, 8)); zhel = zcmb + 0.001 * rng.normal(size=8)
+    c0 = LambdaCDM(H0=70, Om0=0.3, Ode0=0.7)
+    mag = 5 * np.log10((1 + zhel) * (1 + zcmb) * c0.angular_diameter_distance(zcmb).value) + 5.7 + 0.05 * rng.normal(size=8)
+    lower = dict(h0=20., om=0.0, ok=-0.5); upper = dict(h0=150., om=1.0, ok=0.8)
+    cl = CosmoLikelihood([], "oLCDM", {}, dict(kwargs_lower_cosmo=lower, kwargs_upper_cosmo=upper), sne_likelihood="CUSTOM",
+                         kwargs_sne_likelihood=dict(mag_mean=mag, cov_mag=0.05 ** 2 * np.eye(8), zhel=zhel, zcmb=zcmb), interpolate_cosmo=False)
+    cnt = Counts(cl, dict(prior=0))
+    pts = [(70., 0.9, 0.3), (70., 0.5, 0.5), (70., 1.0, 0.8), (70., 0.3, 0.0), (65., 0.25, 0.1)]
+    pts += [(float(rng.uniform(20, 150)), float(rng.uniform(0, 1)), float(rng.uniform(-0.5, 0.8))) for _ in range(12)]
+    for x in pts:
+        x = list(x); ode = 1.0 - x[1] - x[2]
+        inp = dict(model=dict(nolens=True, seed=int(seed)), x=x, expect="inside", kind="nolens")
+        rec.case(dict(nolens=True, unphysical=bool(ode <= 0)), kind="inside/olcdm_no_lens/" + ("unphysical" if ode <= 0 else "physical"))
+        cnt.reset()
+        try: v = cl.likelihood(x)
+        except Exception as e:
+            rec.violation("C02:raises:no_lens", "oLCDM without lenses raises inside the box", inp, repr(e)[:200], "a real number or -inf"); continue
+        tag, val = classify(v)
+        if ode <= 0:
+            rec.check(tag == "neg_inf" and cnt.data() == 0, "C02:olcdm_guard:no_lens",
+                      "oLCDM without lenses: 1-om-ok = %.3f <= 0 must give -inf without evaluating the supernova likelihood" % ode,
+                      inp, dict(value=jsonable(v), counts=cnt.snapshot()), "-inf, no evaluation")
+        elif tag in ("nan", "plus_inf", "not_real"):
+            rec.violation("C02:inside:" + tag, "log-probability must be a real number or -inf", inp, jsonable(v), "finite real or -inf")
+
+
 def run_candidates(rec):
     """KNOWN FINDINGS (one deterministic witness each): two raise-inside-the-box situations at the edge of the
     property's proviso (interpolated parameters must stay inside their interpolation range); the random generator
@@ -671,6 +703,7 @@ def main():
         if "descending" in inp: rec.guard(run_descending, rec, inp["descending"]["cfg"], 0, only=inp); rec.write(args.out); return
         if inp.get("model", {}).get("witness"): rec.guard(run_witness, rec)
         elif inp.get("model", {}).get("kde_los_witness"): rec.guard(run_kde_los_witness, rec)
+        elif inp.get("model", {}).get("nolens"): rec.guard(run_nolens, rec, inp["model"]["seed"])
         elif "candidate" in inp: rec.guard(run_candidates, rec)
         else: rec.guard(run_case, rec, inp["model"], only=inp)
         rec.write(args.out); return
@@ -678,6 +711,7 @@ def main():
     rec.guard(run_witness, rec)
     rec.guard(run_kde_los_witness, rec)
     rec.guard(run_candidates, rec)
+    rec.guard(run_nolens, rec, args.seed)
     t0 = time.process_time()                                  # the descending-axis block is inside the time budget of the tier
     ndesc = 27 if args.tier == "quick" else 216               # 9 families x orientations (each axis alone, all axes)
     for i in range(ndesc):
